@@ -1010,7 +1010,7 @@ def shard(arg):
             if rend != b2:
                 res.disagreements.append({'stream': 'raw-text-render', 'case': c, 'model': repr(rend)[:600],
                                           'real': repr(b2)[:600], 'source': G.source(c['lang'], c['nodes'])})
-        scan_part(res, random.Random('%s/%s/C04-scan' % (seed, idx)), max(20, n // 2))
+        scan_part(res, random.Random('%s/%s/C04-scan' % (seed, idx)), min(600, max(20, (3 * n) // 8)))
     res.samples = [{'lang': c['lang'], 'source': G.source(c['lang'], c['nodes']), 'data': c['data']} for c in cases[:2]]
     return res
 
